@@ -102,7 +102,7 @@ func qKind(k client.FieldKind) immutable.Option[client.FieldKind] {
 	return immutable.Some(k)
 }
 
-func qDefs(withIndexes bool) []*qCol {
+func qDefs(idx int) []*qCol {
 	str := client.FieldKind_NILLABLE_STRING
 	num := client.FieldKind_NILLABLE_INT
 	lww := client.LWW_REGISTER
@@ -142,9 +142,12 @@ func qDefs(withIndexes bool) []*qCol {
 			Fields: []client.SchemaFieldDescription{{Name: "_docID", Kind: client.FieldKind_DocID}, {Name: "city", Kind: str, Typ: lww},
 				{Name: "user", Kind: client.NewSchemaKind(qUserRoot, false), Typ: lww}, {Name: "user_id", Kind: client.FieldKind_DocID, Typ: lww}}},
 	}
-	if withIndexes {
+	if idx&1 != 0 {
 		device.Version.Indexes = []client.IndexDescription{{Name: "Device_year_ASC", ID: 1, Fields: []client.IndexedFieldDescription{{Name: "year"}}}}
 		address.Version.Indexes = []client.IndexDescription{{Name: "Address_city_ASC", ID: 1, Fields: []client.IndexedFieldDescription{{Name: "city"}}}}
+	}
+	if idx&2 != 0 {
+		user.Version.Indexes = []client.IndexDescription{{Name: "User_age_ASC", ID: 1, Fields: []client.IndexedFieldDescription{{Name: "age"}}}}
 	}
 	return []*qCol{{def: user}, {def: device}, {def: address}}
 }
@@ -157,13 +160,13 @@ type qEnv struct {
 	p     *Planner
 }
 
-func qNewEnv(withIndexes bool) *qEnv {
+func qNewEnv(idx int) *qEnv {
 	e := &qEnv{txn: &qTxn{data: &vKV{}, system: &vKV{}}}
 	ctx := datastore.CtxSetTxn(context.Background(), e.txn)
 	ctx = id.InitCollectionShortIDCache(ctx)
 	ctx = id.InitFieldShortIDCache(ctx)
 	e.ctx = ctx
-	e.store = &qStore{cols: qDefs(withIndexes)}
+	e.store = &qStore{cols: qDefs(idx)}
 	for ci, c := range e.store.cols {
 		vBound(id.SetShortCollectionID(ctx, c.def.Version.CollectionID) == nil, "short collection id")
 		for _, f := range c.def.Schema.Fields {
@@ -247,6 +250,9 @@ var qUserIDs = []string{"bae-00000000-0000-0000-0000-0000000000a0", "bae-0000000
 var qDeviceIDs = []string{"bae-00000000-0000-0000-0000-0000000000d0", "bae-00000000-0000-0000-0000-0000000000d1", "bae-00000000-0000-0000-0000-0000000000d2"}
 var qModels = []string{"good", "bad"}
 
+// qSmall: a value in 0..3 (one length class of the index key encoder: the encodings themselves are C17's subject)
+func qSmall(name string) int64 { return int64(vU8(name) & 3) }
+
 type qDevice struct {
 	year  int64
 	model int
@@ -261,34 +267,44 @@ type qDevice struct {
 //	q=3  User(filter: {devices: {year: {_gt: c}, model: {_eq: "good"}}}) { name }
 //	q=4  User(filter: {devices: {year: {_gt: c}}}) { name devices { model } }
 //	q=5  Device(filter: {owner: {age: {_gt: c}}}) { model }               children with a matching parent
+//	q=6  User(filter: {devices: {year: {_gt: c}}}) { name devices(order: {year: ASC}) { model year } }
+//	q=7  User(filter: {devices: {year: {_gt: c}}}) { name _count(devices: {}) }
+//	q=8  User(filter: {devices: {year: {_gt: c}}}, order: {age: ASC}) { name age }
+//	q=9  User { name devices(order: {year: ASC}) { model year } }         ordered children, no filter
+//
+// idx: bit 0 = secondary index on Device.year, bit 1 = secondary index on User.age
 func VerifH_C09_OneToMany() {
 	q := vConfInt("q")
-	e := qNewEnv(vConfInt("idx") != 0)
+	e := qNewEnv(vConfInt("idx"))
 	nd := vConfInt("devices")
-	ages := [2]int64{int64(vI8("age")), int64(vI8("age"))}
+	ages := [2]int64{qSmall("age"), qSmall("age")}
 	for u, uid := range qUserIDs {
 		e.putDoc("User", uid, map[string]any{"name": "U" + strconv.Itoa(u), "age": ages[u]})
 	}
 	devs := make([]qDevice, nd)
 	for d := 0; d < nd; d++ {
-		devs[d] = qDevice{year: int64(vI8("year")), model: vChoose("model", 2), owner: vChoose("owner", 3) - 1}
+		devs[d] = qDevice{year: qSmall("year"), model: vChoose("model", 2), owner: vChoose("owner", 3) - 1}
 		f := map[string]any{"model": qModels[devs[d].model], "year": devs[d].year}
 		if devs[d].owner >= 0 {
 			f["owner_id"] = qUserIDs[devs[d].owner]
 		}
 		e.putDoc("Device", qDeviceIDs[d], f)
 	}
-	c := int64(vI8("c"))
+	c := qSmall("c") - 1
 	yearGt := map[string]any{"year": map[string]any{"_gt": c}}
 	var sel *request.Select
 	switch q {
+	case 9:
+		sel = &request.Select{Field: request.Field{Name: "User"}, ChildSelect: request.ChildSelect{Fields: []request.Selection{
+			qField("name"), &request.Select{Field: request.Field{Name: "devices"}, ChildSelect: request.ChildSelect{Fields: []request.Selection{qField("model"), qField("year")}},
+				Orderable: request.Orderable{OrderBy: immutable.Some(request.OrderBy{Conditions: []request.OrderCondition{{Fields: []string{"year"}, Direction: request.ASC}}})}}}}}
 	case 0:
 		sel = &request.Select{Field: request.Field{Name: "User"}, ChildSelect: request.ChildSelect{Fields: []request.Selection{
 			qField("name"), &request.Select{Field: request.Field{Name: "devices"}, ChildSelect: request.ChildSelect{Fields: []request.Selection{qField("model")}}}}}}
 	case 1:
 		sel = &request.Select{Field: request.Field{Name: "Device"}, ChildSelect: request.ChildSelect{Fields: []request.Selection{
 			qField("model"), &request.Select{Field: request.Field{Name: "owner"}, ChildSelect: request.ChildSelect{Fields: []request.Selection{qField("name")}}}}}}
-	case 2, 3, 4:
+	case 2, 3, 4, 6, 7, 8:
 		cond := yearGt
 		if q == 3 {
 			cond = map[string]any{"year": map[string]any{"_gt": c}, "model": map[string]any{"_eq": "good"}}
@@ -297,8 +313,19 @@ func VerifH_C09_OneToMany() {
 		if q == 4 {
 			fields = append(fields, &request.Select{Field: request.Field{Name: "devices"}, ChildSelect: request.ChildSelect{Fields: []request.Selection{qField("model")}}})
 		}
+		if q == 6 {
+			fields = append(fields, &request.Select{Field: request.Field{Name: "devices"}, ChildSelect: request.ChildSelect{Fields: []request.Selection{qField("model"), qField("year")}},
+				Orderable: request.Orderable{OrderBy: immutable.Some(request.OrderBy{Conditions: []request.OrderCondition{{Fields: []string{"year"}, Direction: request.ASC}}})}})
+		}
+		if q == 7 {
+			fields = append(fields, &request.Aggregate{Field: request.Field{Name: request.CountFieldName}, Targets: []*request.AggregateTarget{{HostName: "devices"}}})
+		}
 		sel = &request.Select{Field: request.Field{Name: "User"}, ChildSelect: request.ChildSelect{Fields: fields},
 			Filterable: request.Filterable{Filter: immutable.Some(request.Filter{Conditions: map[string]any{"devices": cond}})}}
+		if q == 8 {
+			sel.Fields = append(sel.Fields, qField("age"))
+			sel.OrderBy = immutable.Some(request.OrderBy{Conditions: []request.OrderCondition{{Fields: []string{"age"}, Direction: request.ASC}}})
+		}
 	default:
 		sel = &request.Select{Field: request.Field{Name: "Device"}, ChildSelect: request.ChildSelect{Fields: []request.Selection{qField("model")}},
 			Filterable: request.Filterable{Filter: immutable.Some(request.Filter{Conditions: map[string]any{"owner": map[string]any{"age": map[string]any{"_gt": c}}}})}}
@@ -317,13 +344,13 @@ func VerifH_C09_OneToMany() {
 		return ok
 	}
 	switch q {
-	case 0, 2, 3, 4:
+	case 0, 2, 3, 4, 6, 7, 8, 9:
 		// expected parents
 		var want [2]bool
 		for u := range qUserIDs {
-			want[u] = q == 0
+			want[u] = q == 0 || q == 9
 			for d := range devs {
-				if q != 0 && devs[d].owner == u && match(d) {
+				if q != 0 && q != 9 && devs[d].owner == u && match(d) {
 					want[u] = true
 				}
 			}
@@ -342,7 +369,25 @@ func VerifH_C09_OneToMany() {
 				continue
 			}
 			seen[u]++
-			if q == 0 || q == 4 {
+			if q == 7 {
+				wantKids := 0
+				for d := range devs {
+					if devs[d].owner == u {
+						wantKids++
+					}
+				}
+				n, _ := row[request.CountFieldName].(int)
+				vAssert(n == wantKids, "count-through-the-relation-is-the-number-of-related-documents")
+			}
+			if q == 6 || q == 9 {
+				kids, _ := row["devices"].([]map[string]any)
+				for i := 1; i < len(kids); i++ {
+					a, _ := kids[i-1]["year"].(int64)
+					b, _ := kids[i]["year"].(int64)
+					vAssert(a <= b, "ordered-children-are-in-order")
+				}
+			}
+			if q == 0 || q == 4 || q == 6 || q == 9 {
 				kids, _ := row["devices"].([]map[string]any)
 				wantKids := 0
 				for d := range devs {
@@ -362,6 +407,11 @@ func VerifH_C09_OneToMany() {
 					vAssert(found, "related-documents-are-exactly-those-pointing-to-the-parent")
 				}
 			}
+		}
+		if q == 8 && len(res) == 2 {
+			a, _ := res[0]["age"].(int64)
+			b, _ := res[1]["age"].(int64)
+			vAssert(a <= b, "ordered-parents-are-in-order")
 		}
 		for u := range qUserIDs {
 			if want[u] {
@@ -403,6 +453,137 @@ func VerifH_C09_OneToMany() {
 			}
 			vAssert(gotPairs == wantPairs, "child-shows-the-parent-its-relation-field-points-to")
 		}
+	}
+	vObserve("rows", len(res))
+}
+
+var qAddressIDs = []string{"bae-00000000-0000-0000-0000-0000000000c0", "bae-00000000-0000-0000-0000-0000000000c1"}
+var qCities = []string{"X", "Y"}
+
+// VerifH_C09_OneToOne — conf: q (query shape), idx (bit 0: index on Address.city, bit 1: index on User.age)
+//
+//	q=0  User { name address { city } }                              the secondary side shows the document pointing to it
+//	q=1  Address { city user { name } }                              the primary side shows the document it points to
+//	q=2  User(filter: {address: {city: {_eq: "X"}}}) { name }        parents by a condition on the related document
+//	q=3  Address(filter: {user: {age: {_gt: c}}}) { city }           primary side filtered through the relation
+//	q=4  User(filter: {address: {city: {_eq: "X"}}}) { name address { city } }
+//
+// A one-to-one link is held by at most one document (what local writes guarantee): the two addresses point to different users.
+func VerifH_C09_OneToOne() {
+	q := vConfInt("q")
+	e := qNewEnv(vConfInt("idx"))
+	ages := [2]int64{qSmall("age"), qSmall("age")}
+	for u, uid := range qUserIDs {
+		e.putDoc("User", uid, map[string]any{"name": "U" + strconv.Itoa(u), "age": ages[u]})
+	}
+	var city, owner [2]int
+	for a := range qAddressIDs {
+		city[a], owner[a] = vChoose("city", 2), vChoose("owner", 3)-1
+		f := map[string]any{"city": qCities[city[a]]}
+		if owner[a] >= 0 {
+			f["user_id"] = qUserIDs[owner[a]]
+		}
+		e.putDoc("Address", qAddressIDs[a], f)
+	}
+	vAssume(owner[0] < 0 || owner[0] != owner[1])
+	c := qSmall("c") - 1
+	addrSel := &request.Select{Field: request.Field{Name: "address"}, ChildSelect: request.ChildSelect{Fields: []request.Selection{qField("city")}}}
+	cityX := request.Filterable{Filter: immutable.Some(request.Filter{Conditions: map[string]any{"address": map[string]any{"city": map[string]any{"_eq": "X"}}}})}
+	var sel *request.Select
+	switch q {
+	case 0:
+		sel = &request.Select{Field: request.Field{Name: "User"}, ChildSelect: request.ChildSelect{Fields: []request.Selection{qField("name"), addrSel}}}
+	case 1:
+		sel = &request.Select{Field: request.Field{Name: "Address"}, ChildSelect: request.ChildSelect{Fields: []request.Selection{
+			qField("city"), &request.Select{Field: request.Field{Name: "user"}, ChildSelect: request.ChildSelect{Fields: []request.Selection{qField("name")}}}}}}
+	case 2:
+		sel = &request.Select{Field: request.Field{Name: "User"}, ChildSelect: request.ChildSelect{Fields: []request.Selection{qField("name")}}, Filterable: cityX}
+	case 3:
+		sel = &request.Select{Field: request.Field{Name: "Address"}, ChildSelect: request.ChildSelect{Fields: []request.Selection{qField("city")}},
+			Filterable: request.Filterable{Filter: immutable.Some(request.Filter{Conditions: map[string]any{"user": map[string]any{"age": map[string]any{"_gt": c}}}})}}
+	default:
+		sel = &request.Select{Field: request.Field{Name: "User"}, ChildSelect: request.ChildSelect{Fields: []request.Selection{qField("name"), addrSel}}, Filterable: cityX}
+	}
+	res, err := e.run(sel)
+	vCover("ran")
+	vAssert(err == nil, "query-no-error")
+	if err != nil {
+		return
+	}
+	userOf := func(name string) int {
+		for i := range qUserIDs {
+			if name == "U"+strconv.Itoa(i) {
+				return i
+			}
+		}
+		return -1
+	}
+	addrOf := func(u int) int {
+		for a := range owner {
+			if owner[a] == u {
+				return a
+			}
+		}
+		return -1
+	}
+	switch q {
+	case 0, 2, 4:
+		var seen [2]int
+		for _, row := range res {
+			name, _ := row["name"].(string)
+			u := userOf(name)
+			vAssert(u >= 0, "row-is-a-stored-parent")
+			if u < 0 {
+				continue
+			}
+			seen[u]++
+			if q == 0 || q == 4 {
+				a := addrOf(u)
+				got, _ := row["address"].(map[string]any)
+				if a < 0 {
+					vAssert(got == nil, "related-document-is-the-one-pointing-to-the-parent")
+				} else {
+					gc, _ := got["city"].(string)
+					vAssert(got != nil && gc == qCities[city[a]], "related-document-is-the-one-pointing-to-the-parent")
+				}
+			}
+		}
+		for u := range qUserIDs {
+			want := q == 0
+			if a := addrOf(u); q != 0 && a >= 0 && city[a] == 0 {
+				want = true
+			}
+			if want {
+				vAssert(seen[u] == 1, "parent-with-a-matching-related-document-appears-once")
+			} else {
+				vAssert(seen[u] == 0, "parent-without-a-matching-related-document-does-not-appear")
+			}
+		}
+	case 1, 3:
+		var wantPairs, gotPairs [2][3]int // [city][owner+1]
+		for a := range owner {
+			if q == 1 || (owner[a] >= 0 && ages[owner[a]] > c) {
+				o := owner[a] + 1
+				if q == 3 {
+					o = 0
+				}
+				wantPairs[city[a]][o]++
+			}
+		}
+		for _, row := range res {
+			cn, _ := row["city"].(string)
+			ci := 0
+			if cn == qCities[1] {
+				ci = 1
+			}
+			oi := 0
+			if o, ok := row["user"].(map[string]any); ok && o != nil {
+				n, _ := o["name"].(string)
+				oi = userOf(n) + 1
+			}
+			gotPairs[ci][oi]++
+		}
+		vAssert(gotPairs == wantPairs, "primary-side-shows-exactly-the-document-it-points-to")
 	}
 	vObserve("rows", len(res))
 }
